@@ -194,20 +194,35 @@ def call_graph_cycles(prog):
 ITER_NEXT = ("std::iter::Iterator>::next", "std::iter::Iterator::next")
 
 
+UNBOUNDED_SOURCES = ("std::iter::Repeat<", "std::iter::RepeatWith<", "std::ops::RangeFrom<", "std::iter::FromFn<",
+                     "std::iter::Successors<", "std::iter::Cycle<", "std::iter::from_fn", "std::iter::successors")
+STD_ITER_PREFIXES = ("std::", "core::", "alloc::")
+
+
 def loop_is_iterator_bounded(body, comp):
-    """a CFG loop is bounded when it contains a call of Iterator::next on a std collection iterator whose result
-    decides the exit"""
+    """a CFG loop is bounded when it contains a call of Iterator::next on a std iterator whose instantiated type
+    names no unbounded source (Repeat, RepeatWith, RangeFrom, FromFn, Successors, Cycle): every other std iterator
+    is finite when its sources are (slices, vectors, arrays, strings, options, bounded integer ranges)"""
     for b in comp:
         c = callee_of(body["blocks"][b]["term"])
         if c is None:
             continue
         k = callee_key(c)
-        if k.endswith(ITER_NEXT) and ("std::slice::Iter" in k or "std::iter::Enumerate" in k or "std::vec::IntoIter" in k
-                                      or "std::iter::Flatten" in k or "std::iter::Map" in k or "std::iter::Filter" in k
-                                      or "std::iter::Rev" in k or "std::iter::Take" in k or "std::iter::Skip" in k
-                                      or "std::iter::Zip" in k or "std::iter::Chain" in k or "std::option::" in k
-                                      or "std::str::Lines" in k):
-            return k
+        if not k.endswith(ITER_NEXT):
+            continue
+        inst = (c.get("resolved") or c).get("def_args") or k
+        if not inst.startswith("<"):
+            continue
+        self_ty = inst[1:].split(" as std::iter::Iterator>")[0]
+        if self_ty.startswith("&mut "):
+            self_ty = self_ty[5:]
+        if not self_ty.startswith(STD_ITER_PREFIXES):
+            continue            # a crate-defined iterator: not covered by this rule
+        if any(u in self_ty for u in UNBOUNDED_SOURCES):
+            continue
+        if "impl " in self_ty or "dyn " in self_ty:
+            continue            # opaque: the source is not visible in the type
+        return inst
     return None
 
 
@@ -303,3 +318,34 @@ def unbounded_loops(body):
     for comp in _sccs_of(nodes, succ):
         examine(comp)
     return bad
+
+
+def reach_callees(prog, start):
+    """every callee key (crate or not) called from `start` or from a crate body reachable from it (closures, helpers)"""
+    seen, stack, out = set(), [start], set()
+    while stack:
+        k = stack.pop()
+        if k in seen or k not in prog.bodies:
+            continue
+        seen.add(k)
+        for bb in prog.bodies[k]["blocks"]:
+            c = callee_of(bb["term"])
+            if c is not None:
+                out.add(callee_key(c))
+        for c in local_callees(prog, k):
+            stack.append(c)
+    return out, seen
+
+
+def delegates_to_parse(prog, start, from_str, parse):
+    """`start` reaches `parse` either directly, through `from_str`, or through str::parse (which calls FromStr::from_str,
+    required to call `parse`)"""
+    callees, bodies = reach_callees(prog, start)
+    if parse in callees:
+        return True
+    fs_ok = from_str in prog.bodies and parse in reach_callees(prog, from_str)[0]
+    if from_str in callees or from_str in bodies:
+        return fs_ok
+    if any("core::str::<impl str>::parse" in c for c in callees):
+        return fs_ok
+    return False
